@@ -19,6 +19,7 @@ import (
 	"os"
 	"sort"
 	"strings"
+	"sync"
 	"unicode/utf8"
 
 	"github.com/wundergraph/graphql-go-tools/execution/graphql"
@@ -853,6 +854,95 @@ func c15StreamDefaults(run *Run, r *rand.Rand) {
 	run.Feat("defaults")
 }
 
+// ---- stream C: concurrent requests on one cached plan -------------------------------------------------------------------------
+//
+// N goroutines execute the same operation text with different variable values on ONE engine (one cached plan, hence one
+// set of input templates and variable renderers).  Every subgraph request a client's execution sends must carry that
+// client's values and nobody else's.
+
+func c15StreamConcurrent(run *Run, r *rand.Rand) {
+	layouts, err := fedGetLayouts()
+	if err != nil {
+		return
+	}
+	l := layouts["L1"]
+	eng, mu, err := fedCachedEngine(l, "c15/concurrent", fedEngineOpts{})
+	if err != nil {
+		run.Violate(Violation{Kind: "oracle", Clause: "engine_builds", Detail: err.Error()}, "")
+		return
+	}
+	defer mu.Unlock()
+	u := fedL1Universe(r)
+	op := pick(r, []string{
+		`query Q($id: ID!, $term: String!) { user(id: $id) { id name } search(term: $term) { __typename } }`,
+		`query Q($id: ID!, $upc: ID!) { user(id: $id) { name username } product(upc: $upc) { name } }`,
+	})
+	const clients = 12
+	type result struct {
+		vals []string
+		resp *fedResponse
+	}
+	results := make([]result, clients)
+	var wg sync.WaitGroup
+	for i := 0; i < clients; i++ {
+		// long, distinct values: a torn or swapped buffer is visible
+		a := fmt.Sprintf("client-%02d-first-%s", i, strings.Repeat(string(rune('a'+i)), 40+r.Intn(60)))
+		b := fmt.Sprintf("client-%02d-second-%s", i, strings.Repeat(string(rune('A'+i)), 10+r.Intn(90)))
+		results[i].vals = []string{a, b}
+		wg.Add(1)
+		go func(i int, a, b string) {
+			defer wg.Done()
+			vars := map[string]any{"id": a}
+			if strings.Contains(op, "$term") {
+				vars["term"] = b
+			} else {
+				vars["upc"] = b
+			}
+			vb, _ := json.Marshal(vars)
+			for rep := 0; rep < 6; rep++ {
+				sess := &fedSession{layout: l, universe: u, pool: run.Pool}
+				resp := eng.runCtx(sess, op, "Q", vb)
+				if results[i].resp == nil || len(resp.Log) > 0 {
+					results[i].resp = resp
+				}
+				if len(resp.Log) > 0 {
+					run.Feat("concurrent_subgraph_requests_observed")
+				} else {
+					run.Feat("concurrent_execution_without_subgraph_request")
+				}
+				for _, ex := range resp.Log {
+					if !json.Valid(ex.Variables) && len(ex.Variables) > 0 {
+						run.Violate(Violation{Kind: "oracle", Clause: "forwarded_variables_are_json", Input: map[string]any{"operation": op, "client": i, "variables": vars},
+							Impl: string(ex.Variables), Detail: fmt.Sprintf("client %d: subgraph %s received variables that are not JSON: %s", i, ex.Subgraph, truncate(string(ex.Variables), 300))}, "")
+						return
+					}
+					body := string(ex.Variables) + ex.Query
+					for j := 0; j < clients; j++ {
+						if j == i {
+							continue
+						}
+						if strings.Contains(body, fmt.Sprintf("client-%02d-", j)) {
+							run.Violate(Violation{Kind: "oracle", Clause: "forwarded_values_are_the_clients_own", Input: map[string]any{"operation": op, "client": i, "variables": vars},
+								Impl: string(ex.Variables), Detail: fmt.Sprintf("a request sent for client %d carries a value of client %d: %s", i, j, truncate(string(ex.Variables), 300))}, "")
+							return
+						}
+					}
+					if strings.Contains(body, "client-") && !strings.Contains(body, a) && !strings.Contains(body, b) {
+						run.Violate(Violation{Kind: "oracle", Clause: "forwarded_values_are_the_clients_own", Input: map[string]any{"operation": op, "client": i, "variables": vars},
+							Impl: string(ex.Variables), Detail: fmt.Sprintf("a request sent for client %d carries a damaged value: %s", i, truncate(string(ex.Variables), 300))}, "")
+						return
+					}
+				}
+			}
+		}(i, a, b)
+	}
+	wg.Wait()
+	run.Count(fmt.Sprintf("concurrent%d", r.Int63()), "concurrent_clients")
+	run.mu.Lock()
+	run.TracesVsImpl++
+	run.mu.Unlock()
+}
+
 func runC15(run *Run, replay string) Spec {
 	spec := Spec{
 		Level: "proof",
@@ -876,6 +966,9 @@ func runC15(run *Run, replay string) Spec {
 		c15StreamB(run, c)
 		if k%4 == 0 {
 			c15StreamDefaults(run, r)
+		}
+		if k%200 == 0 {
+			c15StreamConcurrent(run, r)
 		}
 		if k < 3 {
 			run.Sample(map[string]any{"operation": op, "variables": string(vars)})
